@@ -24,8 +24,9 @@ Oracle relaxations (the property does not say more):
   * a table with zero rows may or may not remember its column count (and vice versa) - a plain ``[]`` does not either;
   * only loss-less casts are generated (``'5'``->5, ``3.0``->3, ``5``->``'5'``, ISO date strings, 0/1->bool).
 
-Known findings on the pinned tree (one directed case each, every run; classifiers are narrow):
-  * ``cast-skipped-entry-not-in-query-order`` - ``Reader._cast`` pairs the query field with the field at the same
+Findings (one directed case each, every run; classifiers are narrow):
+  * ``cast-skipped-entry-not-in-query-order`` (fixed in /repo by 528f1d8, reported again on regression) -
+    ``Reader._cast`` paired the query field with the field at the same
     position of the *unpermuted* entry schema; keyed only when the value arrived uncast, a cast was needed, the column
     was moved and the positionally paired entry kind matches the query kind (any other uncast value gets
     ``value-not-cast-to-declared-kind``).
